@@ -64,6 +64,12 @@ def is_down(positive, d, ctx):
 def body(ctx, n, positive, with_bounds, dimcoord, data_pos, pd, d2s, depth_mode, via, second=False):
     from emsarray.operations import depth as depth_ops
     ds, dim, d, b, temp, dims = build(ctx, n, positive, with_bounds, dimcoord, data_pos, depth_mode, second)
+    if via == 'convention':
+        # the same dataset as a CF grid dataset: the alias on the convention finds the depth coordinates itself
+        from symx import builders
+        geo_ds = builders.cf1d(1, 2)
+        ds = ds.assign_coords({n: geo_ds[n].variable for n in ('lat', 'lon')})
+        ds.attrs.update(geo_ds.attrs)
     names = ['zc', 'zalt'] if second else ['zc']
     if second and n % 2:
         names = names[::-1]
@@ -77,8 +83,11 @@ def body(ctx, n, positive, with_bounds, dimcoord, data_pos, pd, d2s, depth_mode,
             warnings.simplefilter('always')
             if via == 'convention':
                 from emsarray.conventions.grid import CFGrid1D
-                raise HarnessError('convention alias is exercised in C12')
-            out = depth_ops.normalize_depth_variables(dataset, names, positive_down=pd, deep_to_shallow=d2s)
+                cv = CFGrid1D(dataset)
+                ctx.check({str(c.name) for c in cv.depth_coordinates} == set(names), 'every depth coordinate of the dataset is found')
+                out = cv.normalize_depth_variables(positive_down=pd, deep_to_shallow=d2s)
+            else:
+                out = depth_ops.normalize_depth_variables(dataset, names, positive_down=pd, deep_to_shallow=d2s)
         return out, w
 
     out, warned = normalise(ds)
@@ -196,6 +205,13 @@ def cases(tier):
                            dict(n=n, positive=positive, with_bounds=(n == 3), dimcoord=(pd is None), data_pos=n % 3,
                                 pd=pd, d2s=d2s, depth_mode='symbolic', via='function', second=True),
                            patches=depthcommon.patches, max_paths=200)
+    # through Convention.normalize_depth_variables (every depth coordinate of the dataset, found by the convention)
+    for positive, second in (('down', True), ('up', True), ('down', False)):
+        for (pd, d2s) in (opts if not q else [o for o in opts if o[0] is not None or o[1] is not None][::2]):
+            yield Case(f'alias:{positive}:second{int(second)}:pd{pd}:d2s{d2s}', body,
+                       dict(n=2 if second else 3, positive=positive, with_bounds=not second, dimcoord=False, data_pos=1,
+                            pd=pd, d2s=d2s, depth_mode='symbolic', via='convention', second=second),
+                       patches=depthcommon.patches, max_paths=200)
     # positive attribute missing: the sign is guessed from the values (concrete depth values, symbolic data)
     for vals in ((0.5, 1.5, 2.5), (-0.5, -1.5, -2.5), (4.0, 2.0, 0.5), (-4.0, -2.0)) if q else \
             ((0.5, 1.5, 2.5), (-0.5, -1.5, -2.5), (4.0, 2.0, 0.5), (-4.0, -2.0), (-3.0, -2.0, -1.0, -0.25), (9.0, 5.0)):
